@@ -6,7 +6,7 @@ BASE = {"NC": 2, "NS": 1, "UNITS": 2, "MAXWRITE": 2, "UNORDERED": "FALSE", "SING
         "FEAT": '"swrite"', "DEV": "", "LATE": "", "EXTRAINV": ""}
 
 # deviations the current tree still has (kept in step with the fix: commits in /repo)
-CODE_DEV = '"OpenCheckThenAct","CountAfterPublish","TimerCheckThenAct","AddConnPublish","NoticeFailLeak"'
+CODE_DEV = '"TimerCheckThenAct"'
 
 
 def cfg(**kw):
